@@ -230,3 +230,37 @@ chk('C14', 'fault_enumeration',
     'exhaustive fault enumeration over cut points of Hypothesis-generated '
     'files, reference codec as oracle',
     'DESIGN.md 7 C14')
+chk('C01', 'exploration',
+    'Model-based generation of operation chains (2-10 steps quick, 2-25 '
+    'thorough) over the whole public transformation catalogue (copy, slice, '
+    'apply, stack, subset, rename variable/dimension, insert/remove/reorder '
+    'dimension, mask, eval, operators, interpDimension, interpSigma) on '
+    'generic files from six construction routes (incl. disk-backed netCDF3/4 '
+    'and character variables) and IOAPI files; arguments are drawn in-domain '
+    'from the current model, a second family draws out-of-domain arguments. '
+    'After every step every live file must be well-formed (dimension names '
+    'exist, shapes equal dimension lengths, unlimited flags survive renames, '
+    'IOAPI TSTEP unlimited, attributes retrievable); an in-domain operation '
+    'that raises is a violation.',
+    'Sequences are sampled to the stated depth; "in-domain" per operation is '
+    'DESIGN Appendix C; one known finding (ioapi objects that lost the IOAPI '
+    'layout) is listed in known_findings.json.',
+    'stateful property-based testing (Hypothesis interactive draws from the '
+    'current model, journal replay) with a structural invariant',
+    'DESIGN.md 7 C01')
+chk('C05', 'exploration',
+    'Three generated families in one check: (a) every transformation and '
+    'query (getTimes, val2idx, time2idx, date2num, repr/dump, save, '
+    'getCoords) with deep snapshots of receiver and arguments before/after '
+    'and write-protected input buffers; (b) sentinel overwrite of every '
+    'variable of each result followed by re-comparison of the inputs; (c) '
+    'histories of open / close (repeated) / drop-reference / gc.collect / '
+    'read over several disk-backed netCDF files with the garbage collector '
+    'under harness control - every handle the model says is open must read '
+    'back its content.  A hard crash of a worker counts as a violation.',
+    'The harness owns the GC schedule (automatic GC disabled per case); '
+    'finalisers fired from other threads are not explored; (c) covers '
+    'netCDF classic and netCDF4 handles.',
+    'property-based testing (Hypothesis): snapshot/metamorphic isolation '
+    'checks + stateful open/close/GC histories against a handle model',
+    'DESIGN.md 7 C05')
